@@ -992,7 +992,38 @@ def check_C09(ctx):
               thorough_designs=[('MC_Sync', 'MC_Sync_felock4.cfg')])
 
 
+def keys_across_inits(ctx, lib):
+    """C10 across (re-)initialisations: init/fini histories in which every generation exhausts the keys (exactly 1024
+    pairwise distinct keys, then refusal), deletes the first and the last one and leaves the rest behind"""
+    binary = build_harness(lib, 'initfini', ['initfini.c'])
+    rng = random.Random(ctx.seed * 17 + 3)
+    tdir = os.path.join(ctx.work, 'iftraces'); os.makedirs(tdir, exist_ok=True)
+    traces = []
+    for h in range(4 if ctx.quick else 20):
+        gens = ['a:%dk' % rng.choice((1, 2, 3, 4)) for _ in range(rng.randint(2, 4))]
+        out = os.path.join(tdir, 'kif_%d.ndjson' % h)
+        rc, o = sh([binary, out] + gens, timeout=180)
+        if rc != 0:
+            f_ = os.path.join(ctx.work, 'kifrun_%d.txt' % h); open(f_, 'w').write(json.dumps({'gens': gens, 'rc': rc, 'out': o[-500:]}))
+            ctx.violation('init/fini history %s with key exhaustion in every generation: %s' % (gens, 'hang (time-out)' if rc == 124 else 'exit status %d' % rc), [f_])
+            continue
+        filt = out + '.f'
+        with open(filt, 'w') as f:
+            for e in read_trace(out):
+                if e['e'] in IF_EVENTS:
+                    f.write(json.dumps(e) + '\n')
+        traces.append(filt)
+    if traces:
+        nok, fails, _ = validate_traces('InitFiniTrace', traces, ['IFOK'], os.path.join(ctx.work, 'tvk'), batch=4,
+                                        extra_consts={'MaxNW': 64, 'NCPU': os.cpu_count()}, bounds=False)
+        ctx.cov['traces_validated_against_impl'] += nok
+        for f in fails:
+            ctx.violation('%s at event %d/%d %s' % (f['violation'], f['matched'] + 1, f['total'], json.dumps(f['event'])), [f['trace']])
+        ctx.log('C->S %d init/fini histories with key exhaustion validated' % nok)
+
+
 def check_C10(ctx):
+    keys_across_inits(ctx, build_lib())
     res, fails = std_check(ctx, [('MC_Sync', 'MC_Sync_keys.cfg')], lambda rng: gen_tls_prog(rng, churn=rng.random() < 0.4), 24, 5,
               [('value_of_other_thread', mut_first(lambda e: e['e'] == 'U_GetSpecific' and e['a'][2] > 0, set_arg(2, lambda v: v + 1))),
                ('lost_value', mut_first(lambda e: e['e'] == 'U_GetSpecific' and e['a'][2] > 0, set_arg(2, 0))),
